@@ -198,27 +198,103 @@ func (ex *Exec) check(extra *Term) SatResult {
 	return r
 }
 
-// query decides pc ∧ extra through the per-job cache (re-execution of a path prefix
-// repeats its queries verbatim).
+// query decides pc ∧ extra. Constraint independence: only the conjuncts of the path
+// condition that (transitively) share symbols with `extra` can influence the answer —
+// the rest is satisfiable on its own because the path condition is — so the solver gets
+// that slice, and the result is cached per worker under the slice's text (re-execution
+// and sibling paths repeat most slices verbatim). A model for replay needs every
+// symbol, so sat answers that must carry a model are re-asked with the whole pc.
 func (ex *Exec) query(extra *Term, wantModel bool) (SatResult, map[string]interface{}) {
-	k := qkey{h1: ex.h1, h2: ex.h2}
-	if extra != nil {
-		k.extra = extra.String()
+	if extra == nil {
+		extra = TTrue
 	}
-	if v, ok := ex.job.qcache[k]; ok && (!wantModel || v.model != nil || v.r != Sat) {
+	if extra.IsConst() && !extra.B {
+		return Unsat, nil
+	}
+	w := ex.w
+	slice := ex.relevant(extra)
+	parts := make([]string, 0, len(slice)+1)
+	for _, c := range slice {
+		parts = append(parts, c.String())
+	}
+	sort.Strings(parts)
+	key := strings.Join(parts, "\n") + "\n|" + extra.String()
+	v, hit := w.qcache[key]
+	if hit {
 		ex.job.res.CacheHits++
-		return v.r, v.model
+	} else {
+		conjs := slice
+		if !extra.IsConst() {
+			conjs = append(append([]*Term{}, slice...), extra)
+		}
+		if len(conjs) == 0 {
+			v = qval{r: Sat}
+		} else {
+			r, _ := w.solver.CheckSet(conjs, nil)
+			v = qval{r: r}
+		}
+		w.qcache[key] = v
 	}
-	var syms map[string]*Term
-	if wantModel {
-		syms = ex.symMap
+	if v.r != Sat || !wantModel {
+		return v.r, nil
 	}
-	r, m := ex.w.solver.Check(ex.pc, extra, syms)
-	if wantModel && r == Sat && m == nil {
+	// full model
+	fk := qkey{h1: ex.h1, h2: ex.h2, extra: extra.String()}
+	if fv, ok := ex.job.qcache[fk]; ok {
+		return fv.r, fv.model
+	}
+	conjs := append([]*Term{}, ex.pc...)
+	if !extra.IsConst() {
+		conjs = append(conjs, extra)
+	}
+	r, m := w.solver.CheckSet(conjs, ex.symMap)
+	if r == Sat && m == nil {
 		m = map[string]interface{}{}
 	}
-	ex.job.qcache[k] = qval{r, m}
+	ex.job.qcache[fk] = qval{r, m}
 	return r, m
+}
+
+// relevant returns the conjuncts of the path condition transitively sharing symbols
+// with t.
+func (ex *Exec) relevant(t *Term) []*Term {
+	syms := map[string]bool{}
+	for _, n := range t.SymNames() {
+		syms[n] = true
+	}
+	if len(syms) == 0 {
+		return nil
+	}
+	used := make([]bool, len(ex.pc))
+	for changed := true; changed; {
+		changed = false
+		for i, c := range ex.pc {
+			if used[i] {
+				continue
+			}
+			hit := false
+			for _, n := range c.SymNames() {
+				if syms[n] {
+					hit = true
+					break
+				}
+			}
+			if hit {
+				used[i] = true
+				changed = true
+				for _, n := range c.SymNames() {
+					syms[n] = true
+				}
+			}
+		}
+	}
+	var out []*Term
+	for i, c := range ex.pc {
+		if used[i] {
+			out = append(out, c)
+		}
+	}
+	return out
 }
 
 func (ex *Exec) known(c *Term) (val, ok bool) {
